@@ -10,6 +10,7 @@ import (
 	"fmt"
 	"io"
 	"math/big"
+	"net"
 	"time"
 
 	zrsa "github.com/zmap/zcrypto/rsa"
@@ -18,6 +19,21 @@ import (
 )
 
 const serverName = "srv.example"
+const otherName = "other.example"
+
+// the IP-address scenarios: the client is configured with ServerName ipName.
+const (
+	ipName  = "192.0.2.7"
+	ipOther = "192.0.2.8"
+)
+
+// serverNameFor is the ServerName the client is configured with in a scenario.
+func serverNameFor(s sScen) string {
+	if s == sIPMatch || s == sIPMismatch {
+		return ipName
+	}
+	return serverName
+}
 
 // ident is what one endpoint is configured with in a scenario.
 type ident struct {
@@ -32,10 +48,15 @@ type family struct {
 	client     [nCScen]ident
 	substChain [][]byte // the other trusted leaf (same name, other key) + intermediate
 	substLeaf  *x509.Certificate
+
+	// resumption axis (resume.go)
+	rServer [nRSScen]ident
+	rClient [nRCScen]ident // index rcNone unused
 }
 
 type pki struct {
 	sroot, croot *fx.Cert
+	ceroot       *fx.Cert // the root of the untrusted client hierarchy (the "changed ClientCAs" pool of resume.go)
 	rsa, ec      family
 	keys         map[string]crypto.Signer
 }
@@ -75,12 +96,16 @@ func buildPKI() *pki {
 	// server side: root <- intermediate <- leaf ; a second, untrusted hierarchy with other names and keys
 	p.sroot = ca("C27 server root", "c27-sroot", nil, 1)
 	sint := ca("C27 server intermediate", "c27-sint", p.sroot, 2)
+	// an intermediate of the trusted root that expired one hour before Config.Time
+	sintOld := fx.MustMint(fx.CertSpec{CN: "C27 server intermediate (old)", Key: "c27-sint-old", IsCA: true, KeyUsage: caUse, Serial: 3,
+		NotBefore: fx.T0.Add(-48 * time.Hour), NotAfter: fx.T0.Add(-time.Hour)}, p.sroot)
 	eroot := ca("C27 unknown root", "c27-eroot", nil, 1)
 	eint := ca("C27 unknown intermediate", "c27-eint", eroot, 2)
 	// client side
 	p.croot = ca("C27 client root", "c27-croot", nil, 1)
 	cint := ca("C27 client intermediate", "c27-cint", p.croot, 2)
 	ceroot := ca("C27 unknown client root", "c27-ceroot", nil, 1)
+	p.ceroot = ceroot
 	ceint := ca("C27 unknown client intermediate", "c27-ceint", ceroot, 2)
 
 	build := func(f *family, keyA, keyB, ckeyA, ckeyB string) {
@@ -118,6 +143,29 @@ func buildPKI() *pki {
 		f.server[sSigCorrupt] = mk(good, sint, keyA)    // genuine peer; its signature is damaged on the way
 		f.server[sNoIntermediate] = mk(good, nil, keyA) // leaf only; the client knows only the root
 		f.server[sKeySubst] = mk(good, sint, keyA)      // genuine peer; the client is shown substLeaf instead
+		f.server[sWrongEKU] = mk(sleaf(keyA, 22, sint, func(s *fx.CertSpec) {
+			s.EKU = []x509.ExtKeyUsage{x509.ExtKeyUsageClientAuth}
+		}), sint, keyA)
+		f.server[sExpiredInterm] = mk(sleaf(keyA, 23, sintOld, nil), sintOld, keyA)
+		f.server[sIPMatch] = mk(sleaf(keyA, 24, sint, func(s *fx.CertSpec) {
+			s.CN, s.DNS = "c27 ip host", nil
+			s.Tweak = func(t *x509.Certificate) { t.IPAddresses = []net.IP{net.ParseIP(ipName).To4()} }
+		}), sint, keyA)
+		// the configured address appears as text in CN and as a dNSName, the only iPAddress SAN is another one:
+		// "IP addresses are matched against iPAddress SANs only" (RFC 6125 B.2)
+		f.server[sIPMismatch] = mk(sleaf(keyA, 25, sint, func(s *fx.CertSpec) {
+			s.CN, s.DNS = ipName, []string{ipName, serverName}
+			s.Tweak = func(t *x509.Certificate) { t.IPAddresses = []net.IP{net.ParseIP(ipOther).To4()} }
+		}), sint, keyA)
+		// resumption axis (resume.go): long-lived and short-lived (NotAfter = T0+24h) twins of the good leaf
+		long := func(s *fx.CertSpec) { s.NotAfter = fx.T0.Add(20 * 365 * 24 * time.Hour) }
+		f.rServer[rsTrusted] = mk(sleaf(keyA, 26, sint, long), sint, keyA)
+		f.rServer[rsShort] = mk(good, sint, keyA)
+		f.rServer[rsUntrustedRoot] = mk(sleaf(keyA, 27, eint, long), eint, keyA)
+		f.rServer[rsWrongName] = mk(sleaf(keyA, 28, sint, func(s *fx.CertSpec) {
+			long(s)
+			s.CN, s.DNS = otherName, []string{otherName}
+		}), sint, keyA)
 		subst := sleaf(keyB, 21, sint, nil)
 		f.substChain, f.substLeaf = [][]byte{subst.DER, sint.DER}, subst.X
 		if len(subst.DER) != len(good.DER) {
@@ -141,6 +189,13 @@ func buildPKI() *pki {
 		}), cint, ckeyA)
 		f.client[cWrongKey] = mk(cgood, cint, ckeyB)
 		f.client[cCVCorrupt] = mk(cgood, cint, ckeyA)
+		f.client[cWrongEKU] = mk(cleaf(ckeyA, 35, cint, func(s *fx.CertSpec) {
+			s.EKU = []x509.ExtKeyUsage{x509.ExtKeyUsageServerAuth}
+		}), cint, ckeyA)
+		clong := func(s *fx.CertSpec) { s.NotAfter = fx.T0.Add(20 * 365 * 24 * time.Hour) }
+		f.rClient[rcTrusted] = mk(cleaf(ckeyA, 36, cint, clong), cint, ckeyA)
+		f.rClient[rcShort] = mk(cgood, cint, ckeyA)
+		f.rClient[rcUntrusted] = mk(cleaf(ckeyA, 37, ceint, clong), ceint, ckeyA)
 	}
 	build(&p.rsa, "rsa2048", "rsa2048b", "rsa2048b", "rsa2048")
 	build(&p.ec, "p256", "p256b", "p256b", "p256")
@@ -180,7 +235,7 @@ func (p *pki) selfCheck() error {
 			if s == sKeySubst {
 				shown = f.substChain
 			}
-			err := verify(shown, p.sroot, serverName, stdx509.ExtKeyUsageServerAuth)
+			err := verify(shown, p.sroot, serverNameFor(s), stdx509.ExtKeyUsageServerAuth)
 			if (err == nil) != serverChainVerifies(s) {
 				return fmt.Errorf("%s server scenario %s: label chainVerifies=%v, crypto/x509 says %v", name, sScenNames[s], serverChainVerifies(s), err)
 			}
